@@ -332,6 +332,7 @@ def history_ops(N, NW, K, hs, M=None, kind=None):
                 ops.append(['plain', float(NW2), K])
         ops.append(['tapered', K, bool(r.random() < 0.5), r.choice([None, N, 2 * N, N // 2])])
         ops.append(['plainf', K])                      # Kmax as a float, NW as an int when integral (the analyzers pass 2*NW-1)
+        ops.append(['refused', r.choice(['interp-from-too-long', 'bad-kind', 'kmax-too-large'])])      # class L7: a request that raises part-way
         if r.random() < 0.6:
             ops.append(['plain', float(NW), K])
         if r.random() < 0.7:
@@ -353,7 +354,7 @@ def history_ops(N, NW, K, hs, M=None, kind=None):
     return ops
 
 
-def run_history(ops, N, NW, via=None):
+def run_history(ops, N, NW, via=None, m_K=2):
     """execute the perturbation operations; every returned array is scribbled on; returns how many operations raised"""
     from histories import scribble
     import warnings
@@ -371,6 +372,17 @@ def run_history(ops, N, NW, via=None):
                     res = u.dpss_windows(op[1], NW, op[2])
                 elif op[0] == 'plainf':
                     res = u.dpss_windows(N, int(NW) if float(NW) == int(NW) else NW, float(op[1]))
+                elif op[0] == 'refused':
+                    try:
+                        if op[1] == 'interp-from-too-long':
+                            u.dpss_windows(N, NW, m_K, interp_from=N + 5)
+                        elif op[1] == 'bad-kind':
+                            u.dpss_windows(N, NW, m_K, interp_from=max(8, N - 1), interp_kind='no-such-kind')
+                        else:
+                            u.dpss_windows(N, NW, N + 3)
+                    except Exception:
+                        pass
+                    continue
                 elif op[0] == 'tapered':
                     s = np.random.RandomState(N + op[1]).randn(2, N)
                     res = u.tapered_spectra(s, (NW, op[1]), NFFT=op[3], low_bias=op[2])
@@ -427,7 +439,7 @@ def apply_history(m):
     if m.get('hist') is None:
         return
     ops = history_ops(m['N'], m['NW'], m['K'], m['hist'], m.get('M'), m.get('interp') if 'M' in m else None)
-    run_history(ops, m['N'], m['NW'], m.get('via'))
+    run_history(ops, m['N'], m['NW'], m.get('via'), m['K'])
 
 
 def cmp_cert(impl, model):
@@ -844,8 +856,8 @@ def robust(name, sd):
         vro = v.copy()
         vro.flags.writeable = False
         for lab, tp in (('ndarray', v.copy()), ('read-only', vro), ('strided', np.repeat(v, 2, axis=1)[:, ::2])):
-            got, ev = u.tapered_spectra(s.copy(), tp, low_bias=bool(nr.rand() < 0.5))
-            if ev is not None or not np.allclose(got, ref, rtol=1e-12, atol=1e-12 * np.abs(ref).max()):
+            got = u.tapered_spectra(s.copy(), tp, low_bias=bool(nr.rand() < 0.5))      # no eigenvalues are returned on this route
+            if isinstance(got, tuple) or not np.allclose(got, ref, rtol=1e-12, atol=1e-12 * np.abs(ref).max()):
                 return bad('tapered_spectra with precomputed tapers (%s) differs from the (NW, K) route' % lab)
         # dtype families of the signal (class L1): the same numbers as int16 / int32 / float32 / big-endian / read-only
         from histories import dtype_family
@@ -912,6 +924,30 @@ def robust(name, sd):
                     if f is not None:
                         return f
         return None
+    if name.startswith('tridi/alias/'):
+        # class L8: one array object in two argument roles (e is d; b is d; b is e) = the call on independent equal-valued arrays
+        form = name.split('/')[-1]
+        fn = FORMS[form]()
+        if fn is None:
+            return None
+        n_ = int(nr.randint(3, 30))
+        d = nr.uniform(3, 6, n_) * nr.choice([-1, 1])
+        for roles in ('e-is-d', 'b-is-d', 'b-is-e'):
+            for ow in (False, True):
+                if roles == 'e-is-d':
+                    dd = d.copy(); args = (dd, dd, nr.uniform(-5, 5, n_)); ind = (d.copy(), d.copy(), args[2].copy())
+                elif roles == 'b-is-d':
+                    e = nr.uniform(-1, 1, n_); dd = d.copy(); args = (dd, e.copy(), dd); ind = (d.copy(), e.copy(), d.copy())
+                else:
+                    e = nr.uniform(-1, 1, n_); ee = e.copy(); args = (d.copy(), ee, ee); ind = (d.copy(), e.copy(), e.copy())
+                if not pivots_ok(ind[0], ind[1], ind[2]):
+                    continue
+                want = fn(ind[0], ind[1], ind[2].copy(), overwrite_b=False)
+                r = common.call(lambda: fn(args[0], args[1], args[2], overwrite_b=ow))
+                got = args[2] if ow else r
+                if isinstance(r, str) or got is None or not np.allclose(got, want, rtol=1e-12, atol=1e-12):
+                    return bad('%s tridisolve with one array in two roles (%s, overwrite_b=%s) differs from the call on independent equal arrays' % (form, roles, ow))
+        return None
     if name == 'inviter/options':
         # class L3: tridi_inverse_iteration with x0 omitted (random start), x0 given, other rtol, read-only d / e: the result is
         # a unit-norm eigenvector of the tridiagonal matrix for the eigenvalue nearest w; d, e untouched
@@ -972,7 +1008,8 @@ def robust(name, sd):
 
 
 ROBUST = ['dpss/repeat', 'dpss/handed-out', 'inviter/options', 'tapered/same-object', 'tapered/layout', 'tridi/layout/compiled', 'tridi/layout/purepy',
-          'tridi/layout/rebuilt', 'tridi/dtype/compiled', 'tridi/dtype/purepy', 'tridi/dtype/rebuilt']
+          'tridi/layout/rebuilt', 'tridi/dtype/compiled', 'tridi/dtype/purepy', 'tridi/dtype/rebuilt', 'tridi/alias/compiled', 'tridi/alias/purepy',
+          'tridi/alias/rebuilt']
 ROBUST_REPEAT = {}
 
 
